@@ -1111,3 +1111,38 @@ func c07CallLocal(c *Ctx, p *Prog, fn *ssa.Function) {
 	})
 	c.Check(okDV && n >= 2, "C07-R10", "TParm:dynamic-variables-local", p.pos(fn.Pos()), fmt.Sprintf("%d accesses to the 26 dynamic variables, all to an array allocated by this call %s", n, detail))
 }
+
+// tparmDispatch finds TParm and the value its operator switch dispatches on (the NextCh result with the
+// most equality comparisons against constants).
+func tparmDispatch(p *Prog) (*ssa.Function, ssa.Value) {
+	fn := p.Fn("terminfo:(*Terminfo).TParm")
+	if fn == nil {
+		return nil, nil
+	}
+	var dispatch ssa.Value
+	best := 0
+	eachInstr(fn, func(in ssa.Instruction) {
+		call, ok := in.(*ssa.Call)
+		if !ok || !strings.HasSuffix(calleeName(&call.Call), "paramsBuffer).NextCh") {
+			return
+		}
+		for _, r := range referrers(call) {
+			ex, ok := r.(*ssa.Extract)
+			if !ok || ex.Index != 0 {
+				continue
+			}
+			n := 0
+			for _, r2 := range referrers(ex) {
+				if bo, ok := r2.(*ssa.BinOp); ok && bo.Op == token.EQL {
+					if _, ok := constInt(bo.Y); ok {
+						n++
+					}
+				}
+			}
+			if n > best {
+				best, dispatch = n, ex
+			}
+		}
+	})
+	return fn, dispatch
+}
